@@ -147,11 +147,11 @@ def printStmt : Stmt → Str
 def printStmts (l : List Stmt) : Str := (l.map printStmt).flatten
 
 def tparamUse (tps : List TParamD) : Str :=
-  if tps.isEmpty then [] else s%"[" ++ commaJoin (tps.map fun t => exported t.name) ++ s%"]"
+  if tps.isEmpty then [] else s%"[" ++ commaJoin (tps.map fun t => t.name) ++ s%"]"
 
 def tparamDecl (tps : List TParamD) : Str :=
   if tps.isEmpty then []
-  else s%"[" ++ commaJoin (tps.map fun t => exported t.name ++ s%" " ++ t.typeStr) ++ s%"]"
+  else s%"[" ++ commaJoin (tps.map fun t => t.name ++ s%" " ++ t.typeStr) ++ s%"]"
 
 def recv (mk : MockF) : Str := s%"func (mock *" ++ mk.mockName ++ tparamUse mk.tparams ++ s%") "
 
